@@ -598,8 +598,14 @@ var regexps = []string{
 	`x*y+z?`, `(?m)^ab$`, `[^\n]{1,3}`, `(?i)[k-m]{2}`, `\PL`, `[а-яё]{0,6}`, `(ab){0,3}c{0,2}`, `\w\W\s\S\d\D`, `a\z`, `\Aa`,
 }
 
+// gxSalt, when set, makes every regexp pattern text unique to the current round (the regexp caches are process wide).
+var gxSalt string
+
 func gxRegexp(r *rng, salt string) *GX {
 	expr := pick(r, regexps)
+	if salt == "" {
+		salt = gxSalt
+	}
 	if salt != "" {
 		expr = expr + `(?:` + salt + `)?` // unique pattern text: the caches are process wide
 	}
